@@ -11,6 +11,9 @@ stdin : JSON dict(mode=..., cases=[...])
       -> per op dict(block, size, expect, reads=[[k, bytes], ...])
   mode 'trace' -> lock/read/write event traces of `with v.get_lock(): v.value += 1` etc. on the
                   real Synchronized wrappers (a recording lock object is passed as lock=)
+  mode 'locks' -> for every wrapper class: the lock given (lock=L / synchronized(obj, L)) is the lock used,
+                  lock=True/None give an RLock, lock=False the raw object; a pickle round trip as done for
+                  a spawn child yields the same semaphore and the same storage
   mode 'procs' -> real processes: visibility parent<->child and locked increments (thorough tier)
 
 Arenas: a bytearray-backed stub (zero-filled like a fresh mmap) unless real=True.
@@ -250,6 +253,107 @@ def run_traces():
     return out
 
 
+
+# ---------------------------------------------------------------- the lock handed to the wrappers
+class FakeSpawnPopen:
+    """what pickling needs from a spawning Popen (billiard.context.set_spawning_popen):
+    file descriptors are duplicated for the 'child' (here: this very process)"""
+    from billiard.popen_spawn_posix import _DupFd as DupFd
+
+    def duplicate_for_child(self, fd):
+        return os.dup(fd)
+
+
+def _kinds():
+    """(name, expected wrapper class, constructor taking lock=/ctx= keywords, raw constructor)"""
+    return [
+        ('Value(i)', 'Synchronized', lambda **k: sc.Value('i', 7, **k), lambda: sc.RawValue('i', 7)),
+        ('Value(c_double)', 'Synchronized', lambda **k: sc.Value(ctypes.c_double, 1.5, **k),
+         lambda: sc.RawValue(ctypes.c_double, 1.5)),
+        ('Array(i,3)', 'SynchronizedArray', lambda **k: sc.Array('i', [1, 2, 3], **k), lambda: sc.RawArray('i', [1, 2, 3])),
+        ('Array(d,n=2)', 'SynchronizedArray', lambda **k: sc.Array('d', 2, **k), lambda: sc.RawArray('d', 2)),
+        ('Array(c,3)', 'SynchronizedString', lambda **k: sc.Array('c', [b'a', b'b', b'c'], **k),
+         lambda: sc.RawArray('c', [b'a', b'b', b'c'])),
+        ('Array(c,n=4)', 'SynchronizedString', lambda **k: sc.Array('c', 4, **k), lambda: sc.RawArray('c', 4)),
+        ('Value(Point)', 'SynchronizedPoint', lambda **k: sc.Value(Point, 1.0, 2.0, **k), lambda: sc.RawValue(Point, 1.0, 2.0)),
+    ]
+
+
+def run_locks():
+    import pickle
+    import billiard
+    from billiard import context as bctx
+    from billiard.reduction import ForkingPickler
+    bh.Arena = REAL_ARENA
+    bh.mmap = real_mmap
+    bh.BufferWrapper._heap = bh.Heap()
+    out = []
+    fork = billiard.get_context('fork')
+    # ---- (1) the lock given is the lock used
+    for name, cls, mk, mkraw in _kinds():
+        for lname, L in (('Lock', fork.Lock()), ('RLock', fork.RLock()), ('object with acquire/release', RecLock([]))):
+            rec = dict(check='explicit-lock', kind=name, lock=lname)
+            try:
+                w = mk(lock=L)
+                rec.update(cls=type(w).__name__, want_cls=cls, same=w.get_lock() is L,
+                           bound=(w.acquire == L.acquire and w.release == L.release))
+                w2 = sc.synchronized(mkraw(), lock=L)
+                rec.update(sync_cls=type(w2).__name__, sync_same=w2.get_lock() is L)
+                w3 = sc.synchronized(mkraw(), L, fork)
+                rec.update(sync_pos_same=w3.get_lock() is L)
+            except Exception as exc:
+                rec['exc'] = '%s: %s' % (type(exc).__name__, str(exc)[:200])
+            out.append(rec)
+        rec = dict(check='default-lock', kind=name)
+        try:
+            rec.update(true_type=type(mk(lock=True, ctx=fork).get_lock()).__name__,
+                       none_type=type(mk(ctx=fork).get_lock()).__name__,
+                       sync_none_type=type(sc.synchronized(mkraw(), ctx=fork).get_lock()).__name__)
+            r = mk(lock=False)
+            rec.update(false_is_raw=(not isinstance(r, sc.SynchronizedBase)) and isinstance(r, (ctypes._SimpleCData, ctypes.Array, ctypes.Structure)))
+        except Exception as exc:
+            rec['exc'] = '%s: %s' % (type(exc).__name__, str(exc)[:200])
+        out.append(rec)
+    # ---- (2) pickle round trip as done for a spawn/forkserver child: same semaphore, same storage
+    spawn = billiard.get_context('spawn')
+    for name, cls, mk, mkraw in _kinds():
+        for lname in ('default', 'Lock', 'RLock'):
+            rec = dict(check='pickle-roundtrip', kind=name, lock=lname)
+            try:
+                L = None if lname == 'default' else getattr(spawn, lname)()
+                w = mk(ctx=spawn) if L is None else mk(lock=L, ctx=spawn)
+                bctx.set_spawning_popen(FakeSpawnPopen())
+                try:
+                    data = bytes(ForkingPickler.dumps(w))
+                finally:
+                    bctx.set_spawning_popen(None)
+                w2 = pickle.loads(data)
+                l1, l2 = w.get_lock(), w2.get_lock()
+                rec.update(cls=type(w2).__name__, want_cls=cls,
+                           lock_type=type(l1).__name__, lock_type2=type(l2).__name__,
+                           sem_name=getattr(l1._semlock, 'name', None), sem_name2=getattr(l2._semlock, 'name', None))
+                # behaviour: while the original holds the lock the rebuilt one cannot take it
+                l1.acquire()
+                got = l2.acquire(False)
+                if got:
+                    l2.release()
+                l1.release()
+                got_after = l2.acquire(False)
+                if got_after:
+                    l2.release()
+                rec.update(excluded_while_held=not got, free_after_release=bool(got_after))
+                # same storage: a store through the original is read through the rebuilt object
+                r1, r2 = raw_of(w), raw_of(w2)
+                n = ctypes.sizeof(r1)
+                ctypes.memmove(ctypes.addressof(r1), bytes((0xA0 + i) & 0xFF for i in range(n)), n)
+                rec.update(state=list(r1._wrapper._state[0][1:]) + [r1._wrapper._state[1]],
+                           state2=list(r2._wrapper._state[0][1:]) + [r2._wrapper._state[1]],
+                           bytes1=read_bytes(w), bytes2=read_bytes(w2))
+            except Exception as exc:
+                rec['exc'] = '%s: %s' % (type(exc).__name__, str(exc)[:300])
+            out.append(rec)
+    return out
+
 # ---------------------------------------------------------------- real processes (thorough)
 def run_procs(c):
     import billiard
@@ -299,6 +403,8 @@ if __name__ == '__main__':
         res = [run_mem_case(c) for c in req['cases']]
     elif req['mode'] == 'trace':
         res = run_traces()
+    elif req['mode'] == 'locks':
+        res = run_locks()
     else:
         res = run_procs(req)
     bh.Arena = REAL_ARENA
